@@ -34,7 +34,7 @@ Presented(y) ==
 Cycle(gen, h, rdy) ==
     LET r0 == [e |-> "cyc", gen |-> gen, rdy |-> rdy, hdr |-> h, pl |-> Payload(h.len), free |-> FALSE,
                maxlat |-> MaxLat, nodone |-> FALSE]
-    IN \E y \in {Eff(x, r0)} :
+    IN \E c \in {StartCrc(x, r0)} : \E y \in {Eff(x, r0, c)} :
        LET p  == Presented(y)
            outs == IF y.st = "idle" THEN {NoWord}
                    ELSE (IF y.k = 1 /\ y.lat < y.maxlat THEN {NoWord} ELSE {})
@@ -76,7 +76,7 @@ RoundTrip ==
 \* CRC bytes in one word (t = 0: a word of its own), for every t (static theorem, checked at start-up)
 Crc32Placement(pl) ==
     LET L  == Len(pl)
-        tl == DppWords(FALSE, pl)
+        tl == DppWords(FALSE, pl, Crc32Of(pl))
         sy == SymsOf(SubSeq(tl, 2, Len(tl)))
         c  == Usb3Crc32Bytes(pl)
     IN /\ \A i \in 1..L : sy[i] = <<pl[i], 0>>
